@@ -272,6 +272,11 @@ def syncOne (restart : Bool) (acc : St × List (Nat × Nat)) (k : Nat) : St × L
     let s1 := setRec s k (some { r with deferRemove := none })
     (if restart then startKey s1 k false else s1, acc.2)
 
+/-- the keys of a `SyncKeys` argument in order of first occurrence (`routines[key] != nil` → skip) -/
+def dedup : List Nat → List Nat
+  | [] => []
+  | k :: ks => k :: (dedup ks).filter (· != k)
+
 def removeAbsent (ks : List Nat) (s : St) (k : Nat) : St :=
   if ks.contains k then s else (removeKey s k).1
 
@@ -281,9 +286,9 @@ def keyList (s : St) : List Nat := (List.range s.kbound).filter (present s)
 
 /-- `SyncKeys` (keyed.go:201-243); `added`/`removed` are reported sorted -/
 def syncKeys (s : St) (ks : List Nat) (restart : Bool) : St × List (Nat × Nat) × List Nat × List Nat :=
-  let added := (ks.eraseDups.filter fun k => !present s k)
+  let added := ((dedup ks).filter fun k => !present s k)
   let removed := (keyList s).filter fun k => !ks.contains k
-  let r1 := ks.eraseDups.foldl (syncOne restart) (s, [])
+  let r1 := (dedup ks).foldl (syncOne restart) (s, [])
   let s2 := (keyList s).foldl (removeAbsent ks) r1.1
   (s2, r1.2, added, removed)
 
@@ -411,7 +416,7 @@ def recordInst (s : St) (g i : Nat) (x : Inst) (k : Nat) : St :=
   let s0 := modInst s g i fun y => { y with st := .recorded }
   match s.key k with
   | some r =>
-    if r.id = x.rid ∧ r.cur = some i then
+    if r.id = x.rid ∧ r.gen = g ∧ r.cur = some i then
       let r1 := { r with err := x.failed, success := !x.failed, exited := true }
       let r2 := match retryCfg s with
         | none => r1
@@ -423,21 +428,22 @@ def recordInst (s : St) (g i : Nat) (x : Inst) (k : Nat) : St :=
     else s0
   | none => s0
 
-/-- is instance `i` (= `x`, of generation `y`) the one its record in the map currently runs
-(`r.ctx == ctx` for the `r` stored under the key) -/
-def isCurrent (s : St) (y : G) (i : Nat) (x : Inst) : Bool :=
+/-- is instance `i` (= `x`, of generation `g` = `y`) the one its record in the map currently runs
+(`r.ctx == ctx` for the `r` stored under the key; `r` is the goroutine's own record — same identity,
+hence same generation) -/
+def isCurrent (s : St) (g : Nat) (y : G) (i : Nat) (x : Inst) : Bool :=
   match s.key y.key with
-  | some r => r.id == x.rid && r.cur == some i
+  | some r => r.id == x.rid && r.gen == g && r.cur == some i
   | none => false
 
 /-- state after `cancel(); close(exitedCh)`: the final critical section of an instance that is no
 longer current finds `r.ctx != ctx` (and stays so: `r.ctx` is never set back to an old context), or
 works on a record that is no longer in the map: it does nothing, so it is not an event -/
-def afterClose (s : St) (y : G) (i : Nat) (x : Inst) : IS :=
-  if isCurrent s y i x then .closed else .recorded
+def afterClose (s : St) (g : Nat) (y : G) (i : Nat) (x : Inst) : IS :=
+  if isCurrent s g y i x then .closed else .recorded
 
 /-- the epoch of return is only ever read by the `record` of a current instance -/
-def retEp (s : St) (y : G) (i : Nat) (x : Inst) : Nat := if isCurrent s y i x then s.epoch else 0
+def retEp (s : St) (g : Nat) (y : G) (i : Nat) (x : Inst) : Nat := if isCurrent s g y i x then s.epoch else 0
 
 /-- can instance `x` of generation `y` take an internal step right now -/
 def instBusy (y : G) (x : Inst) : Bool :=
@@ -532,7 +538,7 @@ def step (s : St) : Ev → Option St
       then some { x with st := .entered } else none
   | .bail g i => instStep s g i fun y x =>
       if x.st = .waiting ∧ x.cancelled ∧ chClosed y x.waitOn
-      then some { x with st := afterClose s y i x, failed := true, retEpoch := retEp s y i x } else none
+      then some { x with st := afterClose s g y i x, failed := true, retEpoch := retEp s g y i x } else none
   | .cbin j g i k d =>
     if j = s.runs.length then
       match s.gens[g]? with
@@ -550,9 +556,9 @@ def step (s : St) : Ev → Option St
     | none => none
     | some (g, i) => instStep s g i fun y x =>
         if x.st = .running ∧ (o = .canceled → x.cancelled = true)
-        then some { x with st := .returned, failed := o ≠ .ok, retEpoch := retEp s y i x } else none
+        then some { x with st := .returned, failed := o ≠ .ok, retEpoch := retEp s g y i x } else none
   | .closeExit g i => instStep s g i fun y x =>
-      if x.st = .returned then some { x with st := afterClose s y i x, cancelled := true } else none
+      if x.st = .returned then some { x with st := afterClose s g y i x, cancelled := true } else none
   | .record g i =>
     match s.gens[g]? with
     | none => none
